@@ -85,7 +85,8 @@ BytesOf(ids) == IF ids = <<>> THEN 0 ELSE LenOf(Head(ids)) + BytesOf(Tail(ids))
 (***************************************************************************)
 Rotated(c, d)  == {n \in DOMAIN d : ~n.z /\ n.k = RotKind(c)}
 Zipped(c, d)   == {n \in DOMAIN d : n.z /\ n.k = RotKind(c)}
-Listing(c, d)  == SortDesc(Rotated(c, d)) \o SortDesc(Zipped(c, d))
+\* newest first, whether compressed or not (no name is both, see C01_NoTwin; FlwF removes unfinished twins first)
+Listing(c, d)  == SortDesc(Rotated(c, d) \cup Zipped(c, d))
 
 \* numbers.rs:41 get_highest_index. Deviation "gz_index": the stem of a compressed file still
 \* carries the suffix ("app_r00001.log"), so its index parses as 0.
